@@ -57,6 +57,19 @@ impl TryFrom<CompressionWithLevel> for Compressor {
     type Error = Error;
 
     fn try_from(value: CompressionWithLevel) -> Result<Self, Self::Error> {
+        // the gzip, xz and bzip2 encoders panic when constructed with a level outside of their range
+        // (zstd clamps the level itself)
+        let level_supported = match value {
+            CompressionWithLevel::Gzip(level) => level <= 9,
+            // the highest bit of an xz level selects the "extreme" variant of the preset
+            CompressionWithLevel::Xz(level) => level & 0x7fff_ffff <= 9,
+            CompressionWithLevel::Bzip2(level) => (1..=9).contains(&level),
+            CompressionWithLevel::None | CompressionWithLevel::Zstd(_) => true,
+        };
+        if !level_supported {
+            return Err(Error::UnsupportedCompressionLevel(value.to_string()));
+        }
+
         match value {
             CompressionWithLevel::None => Ok(Compressor::None(Vec::new())),
             #[cfg(feature = "gzip-compression")]
